@@ -40,9 +40,35 @@ def words(n):
     return z3.UDiv(n + 63, BV(64, 64))
 
 
+_UID = [0]
+
+
 def vec_value(codec, stored):
-    """stored = number of f32 (codec f32) or of 64-bit words (codec bq)"""
-    return Opaque("vector", {"codec": codec, "stored": stored})
+    """stored = number of f32 (codec f32) or of 64-bit words (codec bq); uid tells vectors apart"""
+    _UID[0] += 1
+    return Opaque("vector", {"codec": codec, "stored": stored, "uid": _UID[0]})
+
+
+def same(a, b):
+    """structural equality of two world values (object identity does not survive a path fork, which
+    deep-copies the environment)"""
+    if a is b:
+        return True
+    if z3.is_expr(a) and z3.is_expr(b):
+        return a.eq(b) or z3.is_true(z3.simplify(a == b)) if a.sort() == b.sort() else False
+    if type(a) is not type(b):
+        return False
+    if isinstance(a, Opaque):
+        return a.tag == b.tag and same(a.data, b.data)
+    if isinstance(a, Agg):
+        return a.kind == b.kind and same(a.disc, b.disc) and set(a.f) == set(b.f) and all(same(a.f[k], b.f[k]) for k in a.f)
+    if isinstance(a, dict):
+        return set(a) == set(b) and all(same(a[k], b[k]) for k in a)
+    if isinstance(a, (list, tuple)):
+        return len(a) == len(b) and all(same(x, y) for x, y in zip(a, b))
+    if isinstance(a, (Ref, Cell)):
+        return False
+    return a == b
 
 
 def leaf_node(codec, stored, metric):
@@ -221,7 +247,7 @@ def kv_models(src_codec, dst_codec, same_metric):
             return one(mk_ok(mk_option(r.f[0])))
         return one(mk_err(r.f[0]))
 
-    @reg(r"^Rw(Prefix|Range)::<.*>::del_current$")
+    @reg(r"^Rw(Prefix|Range)::<.*>::del_current(::<.*>)?$")
     def _(eng, st, callee, a, ty):
         pos = st.env["cursors"][eng.deref(a[0]).data["id"]]
         if pos is None or pos not in st.env["kv"]:
@@ -230,7 +256,7 @@ def kv_models(src_codec, dst_codec, same_metric):
         st.env["log"].append(("del_current", pos))
         return one(mk_ok(z3.BoolVal(True)))
 
-    @reg(r"^Rw(Prefix|Range)::<.*>::put_current_with_options::<|^Rw(Prefix|Range)::<.*>::put_current$")
+    @reg(r"^Rw(Prefix|Range)::<.*>::put_current_with_options::<|^Rw(Prefix|Range)::<.*>::put_current(::<.*>)?$")
     def _(eng, st, callee, a, ty):
         c = eng.deref(a[0]).data
         kref, vref = (a[2], a[3]) if "with_options" in callee else (a[1], a[2])
@@ -394,11 +420,11 @@ def run_change(ctx, src_codec, dst_codec, same_metric, deadline, with_items=True
         if not (z3.is_true(z3.simplify(w2.f[1] == BV(IDX, 16))) and z3.is_true(z3.simplify(w2.f[2] == dim))):
             problems.append("the returned writer has another index or dimension")
         if same_metric:
-            if set(after) != set(before) or any(after[k] is not before[k] for k in before) or f.env["log"]:
+            if set(after) != set(before) or any(not same(after[k], before[k]) for k in before) or f.env["log"]:
                 problems.append("asking for the same metric modified the database")
         else:
             for k in before:
-                if k[0] != IDX and (k not in after or after[k] is not before[k]):
+                if k[0] != IDX and (k not in after or not same(after[k], before[k])):
                     problems.append(f"entry {k} of another index was modified")
             for k in after:
                 if k not in before:
